@@ -113,7 +113,8 @@ MonUpdate ==
         l == la.log
         known == l \in Logs
         st == IF known THEN stored[l] ELSE None
-        honest == known /\ la.req = HonestReq(st, la.req.n) /\ OnMain(st) /\ (st = None \/ la.req.n >= st.n)
+        \* (an honest checkpoint bears just the log's signature line; it may carry extension lines)
+        honest == known /\ (\E x \in {0, 1} : la.req = [HonestReq(st, la.req.n) EXCEPT !.ext = x]) /\ OnMain(st) /\ (st = None \/ la.req.n >= st.n)
     IN
     /\ Check("C01", "AppendOnly", AppendOnlyStep(stored, stored'))
     /\ Check("C01", "Chain", ChainOK(hist'))
